@@ -99,6 +99,8 @@ pub struct FnSpec<'b> {
     /// implicit type binders, e.g. `{T : Type}`
     pub implicit: Vec<String>,
     pub doc: String,
+    /// emit a pure definition (the body must be a single pure expression)
+    pub pure_def: bool,
 }
 
 fn closure_param_decl(name: &str, reg: &Registry, ctx: &Ctx) -> String {
@@ -241,8 +243,18 @@ pub fn translate_fn(reg: &Registry, spec: FnSpec) -> FnOut {
         header.push(' ');
         header.push_str(p);
     }
-    header.push_str(&format!(" : Exec {} := do\n", ret_lean(&ctx.ret_ty, &mut_tys)));
-    let text = format!("{header}{}\n", out.lines.join("\n"));
+    let text = if spec.pure_def {
+        if out.lines.len() == 1 && out.lines[0].trim_start().starts_with("pure ") {
+            header.push_str(&format!(" : {} :=\n", ret_lean(&ctx.ret_ty, &mut_tys)));
+            format!("{header}  {}\n", &out.lines[0].trim_start()["pure ".len()..])
+        } else {
+            ctx.errors.push(format!("{}: `{}` must be a single pure expression", spec.file, spec.lean_name));
+            String::new()
+        }
+    } else {
+        header.push_str(&format!(" : Exec {} := do\n", ret_lean(&ctx.ret_ty, &mut_tys)));
+        format!("{header}{}\n", out.lines.join("\n"))
+    };
     FnOut {
         text,
         errors: ctx.errors,
